@@ -6,6 +6,7 @@ package main
 // byte with what the source sent, and the run id / offset / size used afterwards with the announced ones.
 
 import (
+	"sync"
 	"encoding/json"
 	"io"
 	"io/ioutil"
@@ -35,6 +36,7 @@ type hoCase struct {
 	PauseUs     int    `json:"pause_us"`
 	Offset      int64  `json:"offset"`
 	ReadMax     int    `json:"read_max"` // consumer read size bound
+	DropAt      int    `json:"drop_at"`  // psync mode: the source hangs up after this many stream bytes (0: never); the tool must come back for the next byte
 }
 
 type hoIn struct {
@@ -47,6 +49,20 @@ type hoIn struct {
 // hoBudget: generous time for the tool to finish a hand-off whose bytes have all been written
 func hoBudget(c *hoCase) time.Duration {
 	return 15*time.Second + time.Duration((c.N+c.StreamLen)/(1<<20))*time.Second
+}
+
+func minInt(a, b int) int {
+	if a < b {
+		return a
+	}
+	return b
+}
+
+func maxInt(a, b int) int {
+	if a > b {
+		return a
+	}
+	return b
 }
 
 func firstDiff(a, b []byte) int {
@@ -92,8 +108,23 @@ func hoRun(in []byte) (interface{}, error) {
 		stream := make([]byte, c.StreamLen)
 		streamFill(uint64(cfg.Seed)+uint64(c.Id), 0, stream)
 		runid := "aabbccddeeff00112233445566778899aabbccdd"
-		src := fakesrc.New(fakesrc.Script{RunID: runid, Offset: c.Offset, PreNewlines: c.PreNewlines, MidNewlines: c.MidNewlines, StatusCase: c.StatusCase,
-			RDB: rdbBytes, Stream: stream, Frags: c.Frags, PauseUs: c.PauseUs}, nil)
+		var dropAt []int
+		if c.DropAt > 0 && c.DropAt < len(stream) && c.Mode != "dump" {
+			dropAt = []int{c.DropAt}
+		}
+		var pmu sync.Mutex
+		var psyncs []fakesrc.Event
+		var sentAt []int64 // stream bytes the source had written when each PSYNC arrived
+		var src *fakesrc.Server
+		src = fakesrc.New(fakesrc.Script{RunID: runid, Offset: c.Offset, PreNewlines: c.PreNewlines, MidNewlines: c.MidNewlines, StatusCase: c.StatusCase,
+			RDB: rdbBytes, Stream: stream, Frags: c.Frags, PauseUs: c.PauseUs, DropAt: dropAt}, func(e fakesrc.Event) {
+			if e.Kind == "psync" {
+				pmu.Lock()
+				psyncs = append(psyncs, e)
+				sentAt = append(sentAt, src.Sent())
+				pmu.Unlock()
+			}
+		})
 		addr, err := src.Listen()
 		if err != nil {
 			return nil, err
@@ -171,6 +202,7 @@ func hoRun(in []byte) (interface{}, error) {
 			ev["runid_ok"] = true
 			ev["offset_used"] = c.Offset
 			ev["full"] = true
+			ev["reconnects"], ev["re_runid_ok"], ev["re_off_ok"] = 0, true, true
 		default:
 			node := &slot.SyncNode{Id: c.Id, Source: addr, SourcePassword: "", Target: []string{"127.0.0.1:1"}, SlotLeftBoundary: -1, SlotRightBoundary: -1}
 			ds := dbSync.VerifNewDbSyncer(node, false, "?", -1, 0, utils.CheckpointKey, 4)
@@ -212,6 +244,22 @@ func hoRun(in []byte) (interface{}, error) {
 			ev["out_len"] = len(got)
 			ev["out_diff"] = firstDiff(got, want)
 			ev["file_len"], ev["file_diff"], ev["rest_len"], ev["rest_diff"] = 0, -1, 0, -1
+			// what the tool used afterwards: every later PSYNC must carry the announced run id and ask for the byte after what it holds
+			pmu.Lock()
+			reRunid, reOff := true, true
+			for i, e := range psyncs {
+				if i == 0 {
+					continue
+				}
+				if e.RunID != runid {
+					reRunid = false
+				}
+				if e.Off < c.Offset+1 || e.Off > c.Offset+sentAt[i]+1 { // never beyond the byte after everything written so far
+					reOff = false
+				}
+			}
+			ev["reconnects"], ev["re_runid_ok"], ev["re_off_ok"] = maxInt(0, len(psyncs)-1), reRunid, reOff
+			pmu.Unlock()
 		}
 		ev["want_len"] = len(want)
 		if h, _ := ev["hung"].(bool); h {
